@@ -22,7 +22,7 @@ theorem same_dir_node {ss : List (List Nat)} {sch : List (LfnEntry × Node)} (hd
   obtain ⟨hd', hsub, _, _⟩ := addEntry_dirOk hd _ sfn x.2 hwf' h1 h255 hu hnz hcls hkind
   have hxl := hd.mem_listing hx
   constructor
-  · rw [addEntry_dir, delEntry_dir]
+  · rw [addEntry_dir hd.wf.shape _ sfn x.2 sch h1 h255 hu hnz hcls, delEntry_dir]
     refine (all_dir _ _ _).2 ⟨delEntry_dirOk hd' x.1 (hsub x.1 hxl), ?_⟩
     intro y hy
     have hy' := (List.mem_filter.1 hy).1
@@ -30,8 +30,9 @@ theorem same_dir_node {ss : List (List Nat)} {sch : List (LfnEntry × Node)} (hd
     · exact hch y hy'
     · simp only [List.mem_singleton] at hy'
       rw [hy']; exact hch x hx
-  · rw [addEntry_dir, abs_delEntry u hd' x.1 (hsub x.1 hxl), ← addEntry_dir]
-    rw [abs_addEntry _ sfn x.2 (.dir ss sch) name (fun s' c' _ => entryName_new name sfn _ _ hv)]
+  · rw [addEntry_dir hd.wf.shape _ sfn x.2 sch h1 h255 hu hnz hcls, abs_delEntry u hd' x.1 (hsub x.1 hxl),
+      ← addEntry_dir hd.wf.shape _ sfn x.2 sch h1 h255 hu hnz hcls]
+    rw [abs_addEntry hd.wf.shape _ sfn x.2 sch name h1 h255 hu hnz hcls (entryName_new name sfn _ _ hv)]
     apply erase_insert_comm
     cases hs : (cfgOf u).same name (entryName x.1) with
     | false => rfl
